@@ -190,3 +190,39 @@ M('C18', 'benign: load+handler rewritten with flag', 'cache.py',
   "            else:\n                log.debug('[cache.function {}] load'.format(hkey))\n                log_.replay()\n                hit = value\n                return hit\n", expect='silent')
 M('C18', 'benign: f.seek(0, 0)', 'cache.py', "            # Seek back to the beginning, because pickle might have read garbage.\n            f.seek(0)\n", "            f.seek(0, 0)\n", expect='silent')
 M('C18', 'benign: handler tuple reordered', 'cache.py', "            except (EOFError, pickle.UnpicklingError, IndexError):", "            except (IndexError, pickle.UnpicklingError, EOFError):", expect='silent')
+
+# ---------------------------------------------------------------- C20
+M('C20', 'revert F10: curvature handler passes wrapped args', 'SI.py', "        return (dim0**-1).wrap(op(arg0, *args[1:], **kwargs))", "        return (dim0**-1).wrap(op(*args, **kwargs))", rule='R20.6')
+M('C20', 'hypot registered as mul-like', 'SI.py', "    @register(numpy.hypot)\n", "", expect='silent')  # removing a registration only makes the op unsupported
+M('C20', 'hypot moved to the product rule', 'SI.py', "    @register(numpy.matmul)\n    @register(numpy.multiply)", "    @register(numpy.hypot)\n    @register(numpy.matmul)\n    @register(numpy.multiply)", rule='R20.1')
+M('C20', 'add-like loses its dimension guard', 'SI.py',
+  "        (dim0, arg0), (dim1, arg1) = Quantity.__unpack(args[0], args[1])\n        if dim0 != dim1:\n            raise DimensionError(f'incompatible arguments for {op.__name__}: {dim0.__name__}, {dim1.__name__}')\n        return dim0.wrap(op(arg0, arg1, *args[2:], **kwargs))",
+  "        (dim0, arg0), (dim1, arg1) = Quantity.__unpack(args[0], args[1])\n        return dim0.wrap(op(arg0, arg1, *args[2:], **kwargs))", rule='R20.1')
+M('C20', 'comparison loses its dimension guard', 'SI.py',
+  "        if dim0 != dim1:\n            raise DimensionError(f'incompatible arguments for {op.__name__}: {dim0.__name__}, {dim1.__name__}')\n        return op(arg0, arg1, *args[2:], **kwargs)",
+  "        return op(arg0, arg1, *args[2:], **kwargs)", rule='R20.1')
+M('C20', 'division handler multiplies dimensions', 'SI.py', "        return (dim0 / dim1).wrap(op(arg0, arg1, *args[2:], **kwargs))", "        return (dim0 * dim1).wrap(op(arg0, arg1, *args[2:], **kwargs))", rule='R20.1')
+M('C20', 'laplace divides once', 'SI.py', "        return (dim0 / dim1**2).wrap(op(arg0, arg1, *args[2:], **kwargs))", "        return (dim0 / dim1).wrap(op(arg0, arg1, *args[2:], **kwargs))", rule='R20.1')
+M('C20', 'sqrt keeps the dimension', 'SI.py', "        return (dim0**fractions.Fraction(1,2)).wrap(op(arg0, *args[1:], **kwargs))", "        return dim0.wrap(op(arg0, *args[1:], **kwargs))", rule='R20.1')
+M('C20', 'sqrt uses a third', 'SI.py', "dim0**fractions.Fraction(1,2)", "dim0**fractions.Fraction(1,3)", rule='R20.1')
+M('C20', 'grad registered as dimension preserving', 'SI.py', "    @register(function.curl)\n    @register(function.div)\n    @register(function.grad)", "    @register(function.curl)\n    @register(function.div)", expect='silent')
+M('C20', 'grad moved to the unary rule', 'SI.py', "    @register(function.derivative)\n", "    @register(function.derivative)\n    @register(function.grad)\n", rule='R20.1')
+M('C20', 'stack does not compare dimensions', 'SI.py',
+  "        if any(dim != dims[0] for dim in dims[1:]):\n            raise DimensionError(f'incompatible arguments for {op.__name__}: ' + ', '.join(dim.__name__ for dim in dims))\n", "", rule='R20.1')
+M('C20', 'setitem compares the index dimension', 'SI.py', "(dim0, arg0), (dim2, arg2) = Quantity.__unpack(args[0], args[2])", "(dim0, arg0), (dim2, arg2) = Quantity.__unpack(args[0], args[1])", expect='fire')
+M('C20', 'interp returns the dimension of x', 'SI.py', "        return dimfp.wrap(f)", "        return dimx.wrap(f)", rule='R20.1')
+M('C20', 'isnan registered as dimension preserving', 'SI.py', "    @register(numpy.isfinite)\n    @register(numpy.isnan)", "    @register(numpy.isfinite)", expect='silent')
+M('C20', '__rsub__ without _reverse', 'SI.py', "__rsub__ = partialmethod(_try_or_noimp, _reverse, __DISPATCH_TABLE[operator.sub])", "__rsub__ = partialmethod(_try_or_noimp, __DISPATCH_TABLE[operator.sub])", rule='R20.3')
+M('C20', '__rtruediv__ without _reverse', 'SI.py', "__rtruediv__ = partialmethod(_try_or_noimp, _reverse,__DISPATCH_TABLE[operator.truediv])", "__rtruediv__ = partialmethod(_try_or_noimp, __DISPATCH_TABLE[operator.truediv])", rule='R20.3')
+M('C20', '__mod__ bound to mul', 'SI.py', "__mod__ = partialmethod(_try_or_noimp, __DISPATCH_TABLE[operator.mod])", "__mod__ = partialmethod(_try_or_noimp, __DISPATCH_TABLE[operator.mul])", rule='R20.3')
+M('C20', '_reverse does not swap', 'SI.py', "def _reverse(self, func, arg):\n    return func(arg, self)", "def _reverse(self, func, arg):\n    return func(self, arg)", rule='R20.3')
+M('C20', 'Dimension.__truediv__ adds exponents', 'SI.py', "        return cls._binop(operator.sub, cls.__powers, other.__powers)", "        return cls._binop(operator.add, cls.__powers, other.__powers)", rule='R20.4')
+M('C20', 'zero powers kept', 'SI.py', "        powers = {base: power for base, power in arg.items() if power}", "        powers = {base: power for base, power in arg.items()}", rule='R20.4')
+M('C20', 'Dimension.__call__ skips the type check', 'SI.py', "        if type(q) != expect:\n            raise DimensionError(f'expected {expect.__name__}, got {type(q).__name__}')\n", "", rule='R20.4')
+M('C20', 'milli is 1e-6 in SI.Units', 'SI.py', "d=1e-1, c=1e-2, m=1e-3, μ=1e-6, n=1e-9, p=1e-12, f=1e-15, a=1e-18, z=1e-21, y=1e-24)\n\n    def __setattr__", "d=1e-1, c=1e-2, m=1e-6, μ=1e-6, n=1e-9, p=1e-12, f=1e-15, a=1e-18, z=1e-21, y=1e-24)\n\n    def __setattr__", rule='R20.5')
+M('C20', 'peta/exa swapped in unit.py', 'unit.py', "E=1e18, P=1e15", "E=1e15, P=1e18", rule='R20.5')
+M('C20', 'prefix collisions not rejected', 'SI.py', "        if collisions:\n            raise ValueError(f'cannot define {name!r}: unit collides with ' + ', '.join(collisions))\n", "", rule='R20.8')
+M('C20', 'format parses the unit unchecked', 'SI.py', "        v = self / type(self)(format_spec[n:])", "        v = self.__value / parse(format_spec[n:]).__value", expect='fire')
+M('C20', 'benign: reorder decorators', 'SI.py', "    @register(numpy.add)\n    @register(numpy.hypot)", "    @register(numpy.hypot)\n    @register(numpy.add)", expect='silent')
+M('C20', 'benign: guard written with ==', 'SI.py', "        (dim0, arg0), (dim2, arg2) = Quantity.__unpack(args[0], args[2])\n        if dim0 != dim2:", "        (dim0, arg0), (dim2, arg2) = Quantity.__unpack(args[0], args[2])\n        if dim2 != dim0:", expect='silent')
+M('C20', 'benign: result written as dim0 * dim1**-1', 'SI.py', "        return (dim0 / dim1).wrap(op(arg0, arg1, *args[2:], **kwargs))", "        return (dim0 * dim1**-1).wrap(op(arg0, arg1, *args[2:], **kwargs))", expect='silent')
